@@ -238,22 +238,23 @@ func (group *Group) Dispose() {
 	for session := range group.rtmpSubSessionSet {
 		session.Dispose()
 	}
-	group.rtmpSubSessionSet = nil
+	// 注意，清空而不是置为nil。Dispose之后（比如服务退出过程中）仍然可能有新的session加入，往nil map中写入会panic
+	group.rtmpSubSessionSet = make(map[*rtmp.ServerSession]struct{})
 
 	for session := range group.rtspSubSessionSet {
 		session.Dispose()
 	}
-	group.rtspSubSessionSet = nil
+	group.rtspSubSessionSet = make(map[*rtsp.SubSession]struct{})
 
 	for session := range group.httpflvSubSessionSet {
 		session.Dispose()
 	}
-	group.httpflvSubSessionSet = nil
+	group.httpflvSubSessionSet = make(map[*httpflv.SubSession]struct{})
 
 	for session := range group.httptsSubSessionSet {
 		session.Dispose()
 	}
-	group.httptsSubSessionSet = nil
+	group.httptsSubSessionSet = make(map[*httpts.SubSession]struct{})
 
 	group.delIn()
 }
